@@ -365,12 +365,29 @@ def map_follow(ctx, base, meta, in_hist, case):
     if "a" not in names or len(names) < 2:
         return
     others = [n for n in names if n != "a"]
+    # second variant: the work list is BOUND on the inner graph and the caller leaves it alone - the binding has to
+    # follow the renames of the mapped input like a caller-supplied list does
+    inner_bound = ctx.rng.random() < 0.5
+    items = ["item0", "item1", "item2"]
+    if inner_bound:
+        try:
+            base = base.graph.bind(a=list(items)).as_node(name=base.name)
+        except Exception as e:  # noqa: BLE001
+            ctx.violation("C06:map_over-raised", f"binding the mapped parameter on the inner graph raised {e!r}", case)
+            return
+        case = {**case, "mapped_parameter_bound_inside": True}
+        ctx.obs["map_follow_inner_bound"] += 1
+    pre = ctx.rng.randint(0, len(in_hist))  # renames before / after map_over
     try:
-        node = base.map_over("a", clone=[others[0]])
+        node = base
+        for b in in_hist[:pre]:
+            node = node.with_inputs(dict(b))
+        fpre = ref.forward_map(names, in_hist[:pre])
+        node = node.map_over(fpre["a"], clone=[fpre[others[0]]])
     except Exception as e:  # noqa: BLE001
         ctx.violation("C06:map_over-raised", f"map_over('a', clone=[{others[0]!r}]) raised {e!r}", case)
         return
-    for b in in_hist:
+    for b in in_hist[pre:]:
         node = node.with_inputs(dict(b))
     fm = ref.forward_map(names, in_hist)
     cfg = node.map_config
@@ -381,7 +398,8 @@ def map_follow(ctx, base, meta, in_hist, case):
     provided = {fm[n]: f"to:{fm[n]}" for n in names if n != "a"}
     cloned_obj = [f"to:{fm[others[0]]}"]  # a mutable object: sharing vs copying per item is observable
     provided[fm[others[0]]] = cloned_obj
-    provided[fm["a"]] = ["item0", "item1", "item2"]
+    if not inner_bound:
+        provided[fm["a"]] = list(items)
     rt.new_rec()
     try:
         res = SyncRunner().run(g, provided)
